@@ -54,6 +54,10 @@ for pid in sorted(os.listdir(root)):
 res = os.path.join(V, "seeded", "RESULTS.md")
 old = open(res).read() if os.path.exists(res) else ""
 marker = f"\n## Round {tag}\n"
-if marker in old: old = old[:old.index(marker)]
-open(res, "w").write(old.rstrip("\n") + "\n" + marker + "\n| id | breaks | demo w/o → with | checks run → verdict |\n|---|---|---|---|\n" + "\n".join(rows) + "\n")
+tail = ""
+if marker in old:
+    i = old.index(marker); j = old.find("\n## Round ", i + 1)
+    tail = old[j:] if j >= 0 else ""          # later rounds stay
+    old = old[:i]
+open(res, "w").write(old.rstrip("\n") + "\n" + marker + "\n| id | breaks | demo w/o → with | checks run → verdict |\n|---|---|---|---|\n" + "\n".join(rows) + "\n" + tail)
 print("\n".join(rows))
